@@ -10,6 +10,8 @@ import (
 	"os"
 	"path/filepath"
 	"runtime/debug"
+	"strings"
+	"sync"
 	"sync/atomic"
 
 	gonnx "github.com/advancedclimatesystems/gonnx"
@@ -48,6 +50,7 @@ func init() {
 }
 
 var runPanics int64
+var runPanicKinds sync.Map // first line of the panic -> *int64
 
 // zeroFeed builds an input set satisfying the declared signature (dynamic dims = 1, float32).
 func zeroFeed(m *gonnx.Model) gonnx.Tensors {
@@ -115,6 +118,17 @@ func tryLoad(b []byte, expect string) (kind, detail string, loaded bool) {
 		defer func() {
 			if p := recover(); p != nil {
 				atomic.AddInt64(&runPanics, 1)
+				key := firstLines(fmt.Sprint(p), 1)
+				if len(key) > 90 {
+					key = key[:90]
+				}
+				if fr := gonnxFrames(firstLines(string(debug.Stack()), 30)); fr != "" {
+					if i := strings.Index(fr, "("); i > 0 {
+						key += " @ " + fr[:i]
+					}
+				}
+				cnt, _ := runPanicKinds.LoadOrStore(key, new(int64))
+				atomic.AddInt64(cnt.(*int64), 1)
 				rerr = fmt.Errorf("run panicked: %v", p)
 				if expect == "op-error" {
 					kind, detail = "panic", fmt.Sprintf("Run panicked: %v :: %s", p, firstLines(string(debug.Stack()), 14))
@@ -434,6 +448,9 @@ func checkC18(c *hx.Checker) {
 		return hx.OK(fmt.Sprintf("zip-entries-loaded=%d", n))
 	})
 	c.Extra["run_panics_counted_not_judged"] = atomic.LoadInt64(&runPanics)
+	kinds := map[string]int64{}
+	runPanicKinds.Range(func(k, v any) bool { kinds[k.(string)] = atomic.LoadInt64(v.(*int64)); return true })
+	c.Extra["run_panic_classes"] = kinds
 }
 
 func sortStrings(s []string) {
